@@ -52,8 +52,11 @@ def case_strategy(tier: str):
         'tree': st.lists(node_strategy(tier), max_size=5),
         'opts': options_strategy(),
         'opts2': options_strategy(),
-        'delivery': st.sampled_from(['str', 'chunks', 'file', 'lines', 'chars', 'special', 'file_seeked', 'file_after_readline', 'fd_file', 'path_file']),
+        'delivery': st.sampled_from(['str', 'chunks', 'file', 'lines', 'chars', 'special', 'file_seeked', 'file_after_readline', 'fd_file', 'path_file',
+                                     'codecs_file', 'wrapped_binary_file', 'generator', 'iter_only']),
         'cuts': st.lists(st.integers(0, 1 << 16), max_size=8),
+        # the same block OBJECT listed again under another block (no cycles): [which block, under which block]
+        'share': st.one_of(st.just([]), st.lists(st.tuples(st.integers(0, 63), st.integers(0, 63)).map(list), max_size=3)),
     })
 
 
@@ -70,6 +73,16 @@ def shape(kv):
     if kv.has_children():
         return [kv.real_name, [shape(c) for c in kv]]
     return [kv.real_name, kv.value]
+
+
+def _blocks_below(kv):
+    """Every block object strictly below kv, in document order (own walk; an object listed twice appears twice)."""
+    out = []
+    for child in kv:
+        if child.has_children():
+            out.append(child)
+            out.extend(_blocks_below(child))
+    return out
 
 
 def strip_ws_outside_quotes(text: str) -> str:
@@ -157,6 +170,20 @@ def deliver(text: str, mode: str, cuts):
         f.seek(0)
         _CLOSE_LATER.append(f)
         return f
+    if mode in ('codecs_file', 'wrapped_binary_file'):   # other text readers over a file on disk, yielding str
+        import codecs
+        import os
+        import tempfile
+        fd, path = tempfile.mkstemp(prefix='verif_c01_', suffix='.txt')
+        with os.fdopen(fd, 'wb') as out:
+            out.write(text.encode('utf8', 'surrogatepass'))
+        _UNLINK_LATER.append(path)
+        if mode == 'codecs_file':           # codecs reader: its .mode says 'rb' although it yields str
+            f = codecs.open(path, 'r', encoding='utf8', errors='surrogatepass')
+        else:
+            f = io.TextIOWrapper(open(path, 'rb'), encoding='utf8', errors='surrogatepass', newline='')
+        _CLOSE_LATER.append(f)
+        return f
     if mode == 'chars':
         return list(text)
     if mode == 'special':     # a chunk boundary in front of every syntax-relevant character
@@ -169,6 +196,13 @@ def deliver(text: str, mode: str, cuts):
         chunks.append(text[last:p])
         last = p
     chunks.append(text[last:])
+    if mode == 'generator':
+        return (c for c in chunks)
+    if mode == 'iter_only':
+        class IterOnly:
+            def __iter__(self):
+                return iter(chunks)
+        return IterOnly()
     return chunks
 
 
@@ -183,6 +217,18 @@ def _execute(desc, ctx):
     from srctools.keyvalues import Keyvalues
     tree = desc['tree']
     root = Keyvalues.root(*[build(n) for n in tree])
+    if desc.get('share'):
+        # List an existing block object a second time under another block.  append() does not copy, so the tree then holds
+        # the same object twice; it is still a tree without cycles as long as the new parent is not inside the shared block.
+        blocks = _blocks_below(root)
+        for a, b in desc['share']:
+            if not blocks:
+                break
+            x, y = blocks[a % len(blocks)], ([root] + blocks)[b % (len(blocks) + 1)]
+            if y is x or any(sub is y for sub in _blocks_below(x)):
+                continue
+            y.append(x)
+            ctx.label('shared_block_object')
     want = [shape(c) for c in root]
     # classification
     stats = {'block': False, 'esc': False, 'esc_block_name': False, 'empty_block': False, 'unicode': False}
@@ -216,6 +262,19 @@ def _execute(desc, ctx):
     ret = root.serialise(buf, **opts)
     ctx.check(ret is None and buf.getvalue() == text, 'file_vs_str',
               'serialise(file) wrote different text from serialise() -> str')
+
+    # the other spellings of "serialise": serialize(), str(), and the deprecated export() generator
+    import warnings
+    with warnings.catch_warnings():
+        warnings.simplefilter('ignore')
+        forms = {'serialize': root.serialize(**opts), 'str': str(root), 'export': ''.join(root.export())}
+    for form, ftext in forms.items():
+        got = [shape(c) for c in Keyvalues.parse(ftext)]
+        if not ctx.check(got == want, 'shape_' + form,
+                         f'parse of the text from {form}() differs\n want={want!r}\n got ={got!r}\n text={ftext!r}', form=form):
+            return
+    after = [shape(c) for c in root]
+    ctx.check(after == want, 'no_mutation', f'tree changed by serialize()/str()/export(): {want!r} -> {after!r}')
 
     # (1)+(4) round trip through the requested delivery and through plain str
     got_plain = None
@@ -326,7 +385,9 @@ SUBCHECKS = [
     Sub('roundtrip', execute, strategy=case_strategy, quick=4000, thorough=120000, floor=50,
         must_hit=('block', 'esc', 'esc_block_name', 'empty_block', 'unicode',
                   'delivery:chunks', 'delivery:file', 'delivery:lines', 'delivery:chars', 'delivery:special',
-                  'delivery:file_seeked', 'delivery:file_after_readline', 'delivery:fd_file', 'delivery:path_file')),
+                  'delivery:file_seeked', 'delivery:file_after_readline', 'delivery:fd_file', 'delivery:path_file',
+                  'delivery:codecs_file', 'delivery:wrapped_binary_file', 'delivery:generator', 'delivery:iter_only',
+                  'shared_block_object')),
     Sub('history', execute_history, strategy=history_strategy, quick=1200, thorough=40000, floor=50,
         must_hit=('mut:edit_name', 'mut:rename', 'mut:set_value', 'pre_fail:single_block', 'pre_fail:pushback_abandoned', 'pre_fail:deep', 'pre_fail:nonstr', 'pre_fail:bad_file', 'pre_fail:raised')),
 ]
